@@ -16,7 +16,7 @@ pub fn run(ctx: &Ctx) -> Report {
     let local = run_cases(ctx, n, |case, l| one_case(ctx, case, l));
     let mut rep = Report::new(
         "exploration",
-        "case i: one generated tree (profile=i%13); a member named _sd / ... is planted at EVERY object position (and as a new \
+        "case i: one generated tree (profile=i%14); a member named _sd / ... is planted at EVERY object position (and as a new \
          single-member object appended to EVERY array) in turn, value kind rotating over 6 kinds, under 4 strategies x 2 formats; \
          control = the unplanted tree and 9 near-miss plants must be issued. evaluations = issue_sd_jwt calls. Distinct = (claims \
          shape, plant position index, name, strategy, format); every planted case is non-trivial.",
@@ -94,7 +94,7 @@ fn plant(v: &Value, target: usize, counter: &mut usize, depth: usize, in_array: 
 
 fn one_case(ctx: &Ctx, case: u64, l: &mut Local) {
     let mut r = Rng::for_case(ctx.seed, STREAM, case);
-    let profile = PROFILES[(case % 13) as usize];
+    let profile = PROFILES[(case % PROFILES.len() as u64) as usize];
     let mut g = GenCfg::new(profile, *r.pick(&[6, 15, 30]), api::now());
     g.safe_names = true;
     let mut u = gen::gen_claims(&mut r, &g);
